@@ -179,6 +179,12 @@ def adaptive_counts(cls):
                         raise TranslateError("_adaptiveInterpolationUpdate: unexpected guard")
                 elif not isinstance(b, ast.Assign):
                     raise TranslateError("_adaptiveInterpolationUpdate: unexpected statement")
+                elif isinstance(b.targets[0], ast.Name) and b.targets[0].id == "scale":
+                    # scale = max(abs(evaluatedPointMin), abs(evaluatedPointMax))
+                    if ast.dump(b.value) != ast.dump(ast.parse(
+                            "max(abs(evaluatedPointMin), abs(evaluatedPointMax))", mode="eval").body):
+                        raise TranslateError("_adaptiveInterpolationUpdate: scale is not "
+                                             "max(|min|, |max|) of the pending points")
             if len(st.body) != 1:
                 raise TranslateError("_adaptiveInterpolationUpdate: unexpected guard (table branch)")
             return frac(st.body), frac(st.orelse), (guard, gconst)
